@@ -66,6 +66,16 @@ def strategy(tier):
         if draw(st.booleans()):
             spec = draw(widen(spec))
         n, m = spec["n"], spec["m"]
+        if draw(st.integers(0, 4)) == 0:
+            # data written with integer literals (an LP/QP given by integer matrices): the callbacks
+            # return integer-typed sparse matrices
+            spec = dict(spec)
+            spec["Q"] = np.round(np.array(spec["Q"], dtype=float) * 4).tolist()
+            spec["A"] = np.round(np.array(spec["A"], dtype=float).reshape(m, n) * 4).tolist()
+            for k in ("w", "v", "Hc", "u", "T"):
+                spec.pop(k, None)
+            spec["fmt"] = dict(spec.get("fmt") or {}, jac_style="int", hess_style="int")
+            spec["family"] = "intdata:" + spec.get("family", "nlp")
         pattern_varying = m > 0 and draw(st.integers(0, 2)) == 0
         if pattern_varying:
             # Jacobian entries J_ij = h_ij * x_j vanish exactly where x_j = 0: the sparsity pattern the
@@ -84,6 +94,8 @@ def strategy(tier):
                 "vw": [0] * n if zv else draw(st.lists(st.integers(-60, 60), min_size=n, max_size=n)),
                 "cw": [0] * m if zc else draw(st.lists(st.integers(-60, 60), min_size=m, max_size=m)),
                 "ow": 0 if zo else draw(st.integers(-20, 20)),
+                # Scaling accepts int8/int16/int32/int64 weight arrays
+                "wdtype": draw(st.sampled_from(["int64", "int64", "int32", "int16", "int8"])),
             }
         elif kind == "none":
             scaling = {"kind": "none"}
@@ -168,13 +180,18 @@ def check(case):
             if not all(np.all(np.isfinite(v)) for v in exp.values()):
                 return excluded("overflow_in_reference", labels)
             for name, via in (("problem", tp), ("evaluator", ev)):
-                got = {
-                    "obj": via.obj(X),
-                    "grad": via.obj_grad(X),
-                    "cons": via.cons(X) if m > 0 or name == "evaluator" else np.zeros(0),
-                    "jac": _dense(via.cons_jac(X)) if m > 0 or name == "evaluator" else np.zeros((0, ri.N)),
-                    "hess": _dense(via.lag_hess(X, Y)),
-                }
+                try:
+                    got = {
+                        "obj": via.obj(X),
+                        "grad": via.obj_grad(X),
+                        "cons": via.cons(X) if m > 0 or name == "evaluator" else np.zeros(0),
+                        "jac": _dense(via.cons_jac(X)) if m > 0 or name == "evaluator" else np.zeros((0, ri.N)),
+                        "hess": _dense(via.lag_hess(X, Y)),
+                    }
+                except Exception as e:
+                    from vf.trace import exc_signature
+
+                    return bad(f"evaluation-raises|{exc_signature(e)}", f"evaluating the internal problem via {name} at X={X.tolist()} raised {type(e).__name__}: {e}")
                 sub += 1
                 for k in ("obj", "grad", "cons", "jac", "hess"):
                     if not _eq(got[k], exp[k]):
